@@ -392,6 +392,7 @@ func c18Frame(res *world.Result, s *simrt.Sim, logf func(string, ...interface{})
 	})
 	client := frame.NewClient(upW, downR)
 	var history []porcupine.Operation
+	var hmu simrt.Mutex // harness state shared by the client tasks
 	var cwg simrt.WaitGroup
 	cwg.Add(K)
 	for c := 0; c < K; c++ {
@@ -412,7 +413,9 @@ func c18Frame(res *world.Result, s *simrt.Sim, logf func(string, ...interface{})
 						out.payload = string(resp[4:])
 					}
 				}
+				hmu.Lock()
 				history = append(history, porcupine.Operation{ClientId: c, Input: frameIn{payload}, Call: call, Output: out, Return: ret})
+				hmu.Unlock()
 				if err != nil {
 					break
 				}
